@@ -10,6 +10,7 @@
             the staging of texts, the specification, the hygiene predicate
             and the monitor [C09_ok]. *)
 From MWF Require Export Base.Str Expand.PyStr.
+From MWF Require Import Base.Util.
 From Coq Require Import List NArith Bool Arith.
 Import ListNotations.
 
@@ -893,4 +894,5 @@ Definition valid_case (c : case) : bool :=
   (Nat.ltb 0 (nrows (c_params c)) || Nat.eqb (length (c_params c)) 0) &&
   forallb (valid_param (nrows (c_params c))) (c_params c) &&
   forallb (fun k => Nat.ltb k (length (c_steps c))) (c_order c) &&
-  Nat.eqb (length (c_order c)) (length (c_steps c)).
+  Nat.eqb (length (c_order c)) (length (c_steps c)) &&
+  nodupb (c_order c).
